@@ -259,11 +259,11 @@ static void run_long(void *a_)
 {
     const lscn_t *s = a_; wl_t W; memset(&W, 0, sizeof W); sslSessionId_t *sid; matrixSslNewSessionId(&sid, NULL);
     const mx_suite_t *su = mx_suite_by_id(s->suite); cur_ver = s->ver; cur_suite = su->name;
-    mx_entropy_observer = NULL;   /* IV freshness is the business of the ordinary scenarios; this one keeps the PRNG log small */
+    mx_entropy_observer = observe_entropy;
     mx_cfg cfg = { .ver = s->ver, .suite = s->suite };
     vf_stat("cases", 1);
     if (mx_conn_open(&W.k, &cfg, sid) != 0) { vf_incon("open failed"); return; }
-    wl_reset(&W); cbc_in_record_layer = 0; nwires[0] = nwires[1] = 0;
+    wl_reset(&W); cbc_in_record_layer = 1; nwires[0] = nwires[1] = 0;
     wl_step_all(&W, 300, "handshake");
     if (!mx_conn_established(&W.k)) { vf_incon("long-stream scenario %s %s did not establish [%s]", mx_vername[s->ver], su->name, cur_desc); mx_conn_close(&W.k); return; }
     size_t g0 = W.k.s.gotlen, g1 = W.k.c.gotlen;
